@@ -5,6 +5,7 @@ R20.2 optional keys of the per-species record are read only under a presence tes
 R20.3 explicit species are removed before scanning; the exclusion test precedes the append
 R20.4 the explicit pipeline is load -> attach -> align -> maps -> extrapolate, with scale, output path,
       reference path and each element of the species triple forwarded to the matching library parameter
+R20.5 a command-line run keeps no table between calls; candidate names are stored as given (or the explicit species is still refused by the System); the exclusion container is a collection, not a string
 """
 from __future__ import annotations
 
